@@ -383,6 +383,7 @@ def main():
     skip = set(req.get('skip_signatures') or [])
     want = req.get('want_signature')
     tried = 0
+    cut = None       # set when the enumeration is cut at the cap of this tier
     for hist in families(pid, req.get('tier', 'quick')):
         tried += 1
         v = run_history(hist)
@@ -395,8 +396,9 @@ def main():
                              default=str))
             return
         if tried > (40000 if req.get('tier', 'quick') != 'thorough' else 400000):
+            cut = tried
             break
-    print(json.dumps({'status': 'not-found', 'tried': tried}))
+    print(json.dumps({'status': 'not-found', 'tried': tried, 'truncated_at': cut}))
 
 
 if __name__ == '__main__':
